@@ -16,11 +16,12 @@ SHARDS = {'quick': 4, 'thorough': 16}
 TIMEOUT = {'quick': 300, 'thorough': 3000}
 N_HIST = {'quick': 2000, 'thorough': 160000}
 PERM_N = {'quick': 5, 'thorough': 6}
+N_BIG = {'quick': 12, 'thorough': 1500}        # histories over 20-150 systems (queue first filled up), 6 ops per system
 RULE = ('cases: (a) seeded random histories of 30-200 ops (add 45%/remove 25%/step 20%/duplicate-add 5%/unknown-remove 5%) '
         'over 6-10 system ids with priorities from {-3..3, +-10^12} forced to repeat, systems re-registered after removal '
         '(priority sometimes changed while unregistered), real Collector subclasses (default priority -1) mixed in, registrations / removals / '
         're-registrations also issued from inside a timestep by a system, and usually two models alive at once that share the system ids; '
-        '(b) for each priority multiset over n<=N systems every distinct registration order (exhaustive). '
+        '(a2) the same over 20-150 systems with the queue filled first (scale regime: long queues, many ties); (b) for each priority multiset over n<=N systems every distinct registration order (exhaustive). '
         'A case is non-trivial when an executed timestep contained >=1 pair of equal-priority neighbours AND (for '
         'histories) >=1 system was re-registered; distinct = distinct (priority sequence in registration order, op-kind '
         'trace) signature.')
@@ -28,7 +29,7 @@ ASSUMPTIONS = ['priorities are fixed while a system is registered (as the proper
                'systems do not override __eq__ (identity equality)',
                'the System/Collector subclasses used for logging only append to a list in execute()/collect()']
 FLOORS = {'quick': {'tie_pairs': 500, 'rejected_add': 50, 'rejected_remove': 50, 'steps_compared': 2000,
-                    'reregistrations': 200, 'in_cycle_change_steps': 1000, 'two_model_histories': 500, 'contract:SystemManager.queue': 1000, 'reach:Core.SystemManager.add_system': 1000,
+                    'reregistrations': 200, 'in_cycle_change_steps': 1000, 'big_histories': 6, 'big_systems': 300, 'two_model_histories': 500, 'contract:SystemManager.queue': 1000, 'reach:Core.SystemManager.add_system': 1000,
                     'reach:Core.SystemManager.execute_systems': 1000},
           'thorough': {'tie_pairs': 50000, 'rejected_add': 5000, 'rejected_remove': 5000, 'steps_compared': 100000,
                        'contract:SystemManager.queue': 100000}}
@@ -147,7 +148,11 @@ class Driver:
         return True
 
     def lookups(self):
-        for r in self.ref:
+        ref = self.ref
+        if len(ref) > 16:        # long queues: a sample of the registry per operation (every lookup re-evaluates the O(n) invariant)
+            step = max(1, len(ref) // 8)
+            ref = ref[self.seq % step::step]
+        for r in ref:
             check(self.model.systems[r['id']] is r['obj'], f'systems[{r["id"]!r}] is not the registered object')
             self.ctx.ev()
 
@@ -188,11 +193,15 @@ class Driver:
 
 
 def case_history(ctx, case):
-    rng = ctx.rng('hist', case['i'])
-    drivers = [Driver(ctx) for _ in range(2 if rng.random() < 0.6 else 1)]      # two models alive at once share the system ids
+    big = case.get('kind') == 'big'
+    rng = ctx.rng('big' if big else 'hist', case['i'])
+    drivers = [Driver(ctx) for _ in range(2 if rng.random() < 0.6 and not big else 1)]      # two models alive at once share the system ids
     if len(drivers) == 2:
         ctx.count('two_model_histories')
-    k = rng.randint(6, 10)
+    k = rng.choice([20, 40, 70, 100, 150]) if big else rng.randint(6, 10)
+    if big:
+        ctx.count('big_histories')
+        ctx.count('big_systems', k)
     pool = rng.sample(PRIOS, rng.randint(2, 4))        # few levels -> forced repeats
     names = [f's{j}' for j in range(k)]
     for d in drivers:
@@ -205,6 +214,11 @@ def case_history(ctx, case):
         d.ever_removed = set()
     rereg, ties = 0, 0
     nops = rng.randint(30, 200) if ctx.tier == 'thorough' else rng.randint(30, 90)
+    if big:
+        nops = 6 * k
+        for d in drivers:           # first fill up: the interesting regime is a LONG queue
+            for n in names:
+                d.add(d.objs[n])
     for _ in range(nops):
         d = rng.choice(drivers)
         objs, ever_removed = d.objs, d.ever_removed
@@ -296,7 +310,7 @@ def case_perm(ctx, case):
 
 
 def run_case(ctx, case):
-    if case['kind'] == 'hist':
+    if case['kind'] in ('hist', 'big'):
         case_history(ctx, case)
     else:
         case_perm(ctx, case)
@@ -313,6 +327,9 @@ def run(ctx):
     for i in range(N_HIST[ctx.tier]):
         if ctx.mine(i) and not ctx.full():
             ctx.run_case({'kind': 'hist', 'i': i}, lambda c, case: run_case(c, case))
+    for i in range(N_BIG[ctx.tier]):
+        if ctx.mine(i) and not ctx.full():
+            ctx.run_case({'kind': 'big', 'i': i}, lambda c, case: run_case(c, case))
     for k, v in contracts.EVALS.items():
         ctx.count('contract:' + k, v)
 
